@@ -61,6 +61,7 @@ BIG = 'BIG-' + 'x' * 16 + '\n' + 'y' * 8
 BIG2 = 'BIG2' + 'z' * 16 + '\n' + 'w' * 8
 CFGS = {'default': {}, 'statistics': {'statistics': 1}, 'lru': {'eviction_policy': 'least-recently-used'}}
 EXPECTED_SIGS = ('fanout_bulk_removal_spins', 'cull_ignores_retry')
+CASE_RECORDS = []       # one per case: {'case', 'result', 'begin_attempts', 'events', 'lock_taken_at', 'lock_released_at'}
 SPIN_BUDGET = 300
 
 
@@ -582,8 +583,15 @@ def cfgs_for(o, thorough):
     return ['default', 'statistics']
 
 
+def correspondence(ctx, res, case_records):
+    """HOOK for the model correspondence (integrator): for every record run the Conc model of the operation with the
+    write lock `held` as in record['case']['lock'] and compare result and event sequence (record['events'])."""
+    return
+
+
 def run(ctx, big=False):
     res = fw.Result()
+    del CASE_RECORDS[:]
     res.rule = ('exhaustive over the explicit operation table (Cache, FanoutCache, DjangoCache, Deque, Index) x {inline, file-backed} x settings '
                 '{default, statistics, LRU} x retry {False, True where the call has the parameter} x lock scenario {held before the call, taken at '
                 'the first BEGIN i.e. between the value-file write and the transaction, released after 1 / 3 failed BEGIN attempts, taken between '
@@ -613,6 +621,8 @@ def run(ctx, big=False):
                 cut += 1
                 continue
             viol, r, info = run_case(ctx, case, twins, stats)
+            CASE_RECORDS.append({'case': case, 'result': r, 'begin_attempts': info['begins'], 'events': info['events'][:80],
+                                 'lock_taken_at': info['taken_at'], 'lock_released_at': info['released_at']})
             res.count(case, nontrivial=True)
             for sig, desc in viol[:2]:
                 res.violations.append(fw.Violation(sig, desc, dict(case)))
@@ -633,6 +643,9 @@ def run(ctx, big=False):
                       'bulk_removals_interrupted_between_pages': stats['partial_bulk'], 'violations_by_sig': stats['by_sig'],
                       'timeouts_of_get_with_expire_time_and_tag_returning_the_bare_default': stats.get('bare_default_for_tuple_get', 0),
                       'cases_skipped_for_time': cut, 'exhaustive': bool(thorough) and cut == 0})
+    res.extra_private = {'case_records': CASE_RECORDS}
+    if not ctx.search_mode:
+        correspondence(ctx, res, CASE_RECORDS)
     return res
 
 
